@@ -28,6 +28,7 @@ func init() {
 			"(C17-identity) every place that identifies an owner by Owner.Name (comparison, map key, joined key) also uses Owner.Kind, and the pods generated for a workload are stored under a key containing the kind (today violated at four places: known finding F19); " +
 			"(C17-key) the peer key is namespace + owner-or-pod name + kind and the owners map is keyed by it; " +
 			"(C17-pure) no unreviewed long-lived write (memo) on the query paths that list peers. " +
+			"(C17-spec) the constructor for Pod resources and the constructor for pod templates read the same fields of PodSpec / Container / ContainerPort (transitively). " +
 			"NOT decided: collisions between generated pod names and real pod names in podsMap; equality of outputs under re-expression."
 		rules.WorkloadExpansion(p, r, "C17")
 		rules.WorkloadIdentity(p, r, "C17-identity")
